@@ -86,7 +86,7 @@ def run(tier="quick", mktable=False):
     chk.rule("G6", "libast_fatal_error cannot return")
     prog = facts.extract()
     ok6 = fatal_cannot_return(prog, chk)
-    summ = nullness.Summaries(prog, noreturn=NORETURN if ok6 else ())
+    summ = nullness.Summaries(prog, noreturn=NORETURN)  # G6 reports the root cause if this assumption fails
     fns, slotf, exported = domain(prog)
     results = {}
     for f in fns:
